@@ -77,6 +77,9 @@ func genC11Message(g *Gen) {
 		if g.R.Chance(60) {
 			emitC11(g, "retry "+[]string{"reader", "bytes"}[g.R.Intn(2)])
 		}
+		if g.R.Chance(50) {
+			emitC11(g, "pimport")
+		}
 		emitC11(g, fmt.Sprintf("interrupt %d", g.R.Range(1, 999)))
 		if g.R.Chance(15) {
 			emitC11(g, fmt.Sprintf("intsweep %d", []int{61, 101, 211}[g.R.Intn(3)]))
